@@ -167,6 +167,10 @@ class Sample(object):
                 A = activity(el, self.mass*frac, environment, exposure, times)
                 self._accumulate(A)
             else:
+                # Activation does not depend on charge. Use the underlying
+                # element since isotopes cannot be looked up through the ion.
+                if core.ision(el):
+                    el = el.element
                 for iso in el.isotopes:
                     iso_mass = self.mass*frac*abundance(el[iso])*0.01
                     if iso_mass:
